@@ -434,3 +434,83 @@ SUBS = [
     Sub("beam_connections", check_frame, gen=frame_cases, quick=50, thorough=500, shards=4),
     Sub("newton_totals", check_newton, gen=newton_cases, quick=15, thorough=150, shards=4),
 ]
+
+
+# ------------------------------------------------------------------------------------------
+# bounded least squares (the back-end used by the phase-field damage problem with bound constraints):
+# the returned damage satisfies the bounds and the KKT conditions of min 1/2 |A d - b|^2, lb <= d <= ub
+
+
+@st.composite
+def lsq_cases(draw):
+    r = draw(gm.recipes2d(types=["TRI3", "QUAD4", "TRI6"], affine_ok=False, perm_ok=False, hmin=5, hmax=8, nmax=4))
+    return dict(recipe=r, regu=draw(st.sampled_from(["AT1", "AT2"])), split=draw(st.sampled_from(["Bourdin", "Amor", "Miehe"])),
+                useed=draw(st.integers(0, 999)), dseed=draw(st.integers(0, 999)), amp=draw(st.integers(1, 8)) / 20.0,
+                dmax=draw(st.sampled_from([0.0, 0.3, 0.9, 1.0])), Gc=draw(st.integers(1, 10)) / 100.0)
+
+
+def check_lsq(case, rec):
+    mesh = gm.build(case["recipe"])
+    if mesh.Nn > 80:
+        raise Inconclusive("too large")
+    types = gm.mesh_types(mesh)
+    sig = dict(regu=case["regu"], split=case["split"])
+    rec.label("lsq:" + case["regu"] + ":" + case["split"], "types:" + types)
+    mat = Models.Elastic.Isotropic(2, E=10.0, v=0.3, planeStress=False)
+    pfm = Models.PhaseField(mat, case["split"], case["regu"], case["Gc"], 0.4, solver="BoundConstrain")
+    simu = Simulations.PhaseField(mesh, pfm)
+    X = np.asarray(mesh.coord, float)
+    rng = np.random.default_rng(case["useed"])
+    G = rng.uniform(-1, 1, (2, 2)) * case["amp"]
+    u = (X[:, :2] @ G.T + 0.05 * case["amp"] * np.sin(3 * X[:, :2])).ravel()
+    d_prev = np.clip(np.random.default_rng(case["dseed"]).uniform(-0.5, 1.0, mesh.Nn), 0.0, 1.0) * case["dmax"]
+    PT = simu.ProblemTypes
+    simu._Set_solutions(PT.elastic, u)
+    simu._Set_solutions(PT.damage, d_prev.copy())
+    simu.Need_Update()
+    A, _, _, b = simu.Get_K_C_M_F(PT.damage)
+    A = orc.dense(A)
+    b = orc.dense(b).ravel()
+    simu._Solver_Solve_problemType(PT.damage)
+    d = np.asarray(simu.damage, float)
+    lb = np.minimum(d_prev, 1 - np.finfo(float).eps)
+    ub = np.ones_like(lb)
+    scale_d = 1.0
+    rec.require(np.all(np.isfinite(d)), "lsq_finite", "non-finite damage", **sig)
+    rec.require(np.all(d >= lb - 1e-9) and np.all(d <= ub + 1e-9), "lsq_bounds",
+                f"damage outside [previous damage, 1]: min(d-lb)={np.min(d - lb):.3e}, max(d-ub)={np.max(d - ub):.3e}", **sig)
+    # reference: an independent algorithm (bounded-variable least squares, active set) at a tight tolerance. The
+    # back-end stops on the relative change of the cost (tol=1e-10), so it is held to the cost, not to the gradient.
+    from scipy.optimize import lsq_linear
+
+    ref = lsq_linear(A, b, bounds=(lb, ub), method="bvls", tol=1e-14)
+    d_ref = ref.x
+    cost = 0.5 * float(np.sum((A @ d - b) ** 2))
+    cost_ref = 0.5 * float(np.sum((A @ d_ref - b) ** 2))
+    cscale = 0.5 * float(np.sum(b**2)) + 0.5 * float(np.sum((np.abs(A) @ np.ones_like(d)) ** 2)) + 1e-300
+    rec.note_max("lsq_cost_excess", max(cost - cost_ref, 0.0) / cscale)
+    active = bool(np.any(d_ref <= lb + 1e-9) or np.any(d_ref >= ub - 1e-9))
+    w = np.linalg.eigvalsh(A.T @ A)
+    well = w.min() > 1e-8 * w.max()
+    if not active:
+        # the unconstrained least-squares solution is feasible: the back-end returns it directly (one linear solve)
+        rec.require(cost <= cost_ref + 1e-12 * cscale, "lsq_cost_optimal", f"{types}: cost {cost!r} of the returned damage exceeds the cost "
+                    f"{cost_ref!r} of the (feasible) unconstrained least-squares solution", active=False, **sig)
+        if well:
+            rec.close(d - d_ref, scale_d, 1e-8, "lsq_solution", f"{types}: damage differs from the least-squares solution", active=False, **sig)
+    else:
+        # active bounds: the trust-region iteration stops on the relative change of the cost (its own rule), which does
+        # not bound the distance to the optimum tightly; it is held to 1 % of the optimal cost and 2e-2 on the damage
+        rec.note_max("lsq_active_rel_cost_excess", max(cost - cost_ref, 0.0) / (cost_ref + 1e-300))
+        rec.require(cost <= cost_ref * 1.01 + 1e-8 * cscale, "lsq_cost_optimal", f"{types}: cost {cost!r} of the returned damage exceeds the cost "
+                    f"{cost_ref!r} of the bounded least-squares solution by more than 1 %", active=True, **sig)
+        if well:
+            rec.note_max("lsq_active_solution_err", float(np.abs(d - d_ref).max()))
+            rec.close(d - d_ref, scale_d, 2e-2, "lsq_solution", f"{types}: damage differs from the bounded least-squares solution", active=True, **sig)
+    inside = (d_ref > lb + 1e-7) & (d_ref < ub - 1e-7)
+    at_lb = d_ref <= lb + 1e-7
+    rec.label("active_lower" if at_lb.any() else "no_active_lower", "inside" if inside.any() else "no_inside")
+    rec.nontrivial(bool(inside.any() and at_lb.any()))
+
+
+SUBS.append(Sub("bounded_lsq", check_lsq, gen=lsq_cases, quick=60, thorough=600, shards=4))
